@@ -67,55 +67,81 @@ def _const_of(folder, mod, extra=None):
     return f
 
 
+def _subst(t, old, new):
+    if t == old:
+        return new
+    if not isinstance(t, tuple) or not t or t[0] == "const":
+        return t
+    return tuple(_subst(x, old, new) if isinstance(x, tuple) else x
+                 for x in t)
+
+
+def _strip_truth(t):
+    """The integer expression whose non-zero-ness a boolean term tests."""
+    t = plain(t)
+    while True:
+        if t[0] == "call" and t[1] == ("global", "bool") and len(t[2]) == 1:
+            t = t[2][0]
+        elif t[0] == "cmp" and t[1] == "Eq" and ("const", 1) in (t[2], t[3]):
+            t = t[3] if t[2] == ("const", 1) else t[2]
+        elif t[0] == "not" and t[1][0] == "cmp" and t[1][1] == "Eq" and \
+                ("const", 0) in (t[1][2], t[1][3]):
+            t = t[1][3] if t[1][2] == ("const", 0) else t[1][2]
+        else:
+            return t
+
+
 def r1_chip_info(program, folder, rep):
+    """Anchored on the fields of the ChipInfo that is returned (its keyword
+    names are API): each field's value term is reduced to 'which bits of
+    which reply word', whatever temporaries and loop/comprehension spelling
+    the decoding uses."""
     fn = program.get(CTRL + ".get_chip_info")
     inst = qual(fn)
-    fl = Flow(fn)
     mod = fn._module
     cf = _const_of(folder, mod)
+    T = Terms(fn)
+    ps = formals(fn)
+    r = [x for x in returns_of(fn) if x.value is not None]
+    if len(r) != 1 or not isinstance(r[0].value, ast.Call):
+        raise AnalysisError("get_chip_info: one ChipInfo(...) expected")
+    rn = T.cfg.node_of(r[0])
+    kw = {k.arg: T.term(k.value, rn) for k in r[0].value.keywords}
+    sends = calls_in(fn, "_send_scp")
+    if len(sends) != 1:
+        raise AnalysisError("get_chip_info: one command expected")
+    INFO = T.term(sends[0])
+    ARG1 = unparse(reify(("attr", INFO, "arg1")))
+
+    def bits(t, env=None):
+        lay = provenance(reify(plain(t)), _const_of(folder, mod, env))
+        if len(lay.pieces) != 1 or lay.const:
+            return None
+        p = lay.pieces[0]
+        return p.src, p.src_lo, p.n, p.dst_lo
     got = {}
-    for d in fl.defs:
-        if d.mode != "assign" or d.value is None:
-            continue
-        v = d.value
-        if d.var == "ethernet_up" and isinstance(v, ast.Call) and \
-                call_name(v)[0] == "bool":
-            v = v.args[0]
-        if d.var in ("num_cores", "largest_free_rtr_mc_block",
-                     "ethernet_up"):
-            lay = provenance(v, cf)
-            if len(lay.pieces) == 1 and lay.pieces[0].src == "info.arg1":
-                p = lay.pieces[0]
-                if d.var == "ethernet_up":
-                    # arg1 & (1 << 25): tested in place
-                    got[d.var] = (p.dst_lo if p.src_lo == p.dst_lo
-                                  else p.src_lo, p.n)
-                else:
-                    got[d.var] = (p.src_lo, p.n)
-    # working links: comprehension over Links with bit 8 + link
-    wl = [d for d in fl.defs if d.var == "working_links"]
+    for field in ("num_cores", "largest_free_rtr_mc_block"):
+        b_ = bits(kw.get(field, ("?",)))
+        if b_ and b_[0] == unparse(reify(plain(("attr", INFO, "arg1")))) \
+                and b_[3] == 0:
+            got[field] = (b_[1], b_[2])
+    b_ = bits(_strip_truth(kw.get("ethernet_up", ("?",))))
+    if b_ and b_[0] == unparse(reify(plain(("attr", INFO, "arg1")))):
+        got["ethernet_up"] = (b_[1], b_[2])
     links = folder.name("rig.links", "Links")
-    bits = None
-    if len(wl) == 1:
-        gens = [n for n in ast.walk(wl[0].value)
-                if isinstance(n, (ast.GeneratorExp, ast.SetComp))]
-        if len(gens) == 1 and len(gens[0].generators[0].ifs) == 1 and \
-                unparse(gens[0].generators[0].iter) == "Links" and \
-                chain(gens[0].elt) == chain(gens[0].generators[0].target):
-            lv = chain(gens[0].generators[0].target)
-            cond = gens[0].generators[0].ifs[0]
-            bits = []
-            for m in links:
-                lay = provenance(cond, _const_of(folder, mod, {lv: m}))
-                if len(lay.pieces) == 1 and \
-                        lay.pieces[0].src == "info.arg1" and \
-                        lay.pieces[0].n == 1:
-                    bits.append(lay.pieces[0].src_lo)
-                else:
-                    bits.append(None)
-    if bits is not None and None not in bits:
-        ok = bits == [8 + m.value for m in links]
-        got["working_links"] = (min(bits), len(bits)) if ok else None
+    built = T.filtered(kw.get("working_links", ("?",)))
+    LINK = ("elem", ("global", "Links"))
+    if built and len(built) == 1 and built[0][0] == ("global", "Links") \
+            and built[0][1] == LINK and len(built[0][2]) == 1 and \
+            built[0][2][0][1] is True:
+        cond = _strip_truth(built[0][2][0][0])
+        lb = []
+        for m in links:
+            b_ = bits(_subst(plain(cond), LINK, ("const", m.value)))
+            lb.append(b_[1] if b_ and b_[2] == 1 and b_[0] == unparse(
+                reify(plain(("attr", INFO, "arg1")))) else None)
+        if None not in lb and lb == [8 + m.value for m in links]:
+            got["working_links"] = (min(lb), len(lb))
     for field, (lo, n) in sorted(INFO_ARG1.items()):
         rep.check(got.get(field) == (lo, n), "C14-R1", inst,
                   "%s = arg1 bits %d:%d" % (field, lo + n - 1, lo),
@@ -125,151 +151,280 @@ def r1_chip_info(program, folder, rep):
                                        lo))
     # payload
     up = [c for c in calls_in(fn, "unpack_from")]
-    okp = len(up) == 1 and cf(up[0].args[0]) is None and \
-        folder.eval(up[0].args[0], {}, mod) == "<18BHI" and \
-        unparse(up[0].args[1]) == "info.data"
-    dv = chain(up[0]._parent.targets[0]) if okp else None
-    cs = [d for d in fl.defs if d.var == "core_states"]
-    okc = len(cs) == 1 and unparse(cs[0].value) == \
-        "[consts.AppState(c) for c in %s[:18]]" % dv
-    le_ = [d for d in fl.defs if d.var == "local_ethernet_chip"]
-    okl = False
-    if len(le_) == 1 and isinstance(le_[0].value, ast.Tuple):
-        lays = [provenance(e, cf) for e in le_[0].value.elts]
-        okl = [(l.pieces[0].src, l.pieces[0].src_lo, l.pieces[0].n)
-               for l in lays if len(l.pieces) == 1] == [
-            ("%s[18]" % dv, 8, 8), ("%s[18]" % dv, 0, 8)]
-    ip = [d for d in fl.defs if d.var == "ip_address"]
-    oki = len(ip) == 1 and "range(0, 32, 8)" in unparse(ip[0].value) and \
-        "%s[19] >> i & 255" % dv in unparse(ip[0].value) and \
-        unparse(ip[0].value).startswith("'.'.join(")
+    okp = len(up) == 1 and folder.eval(up[0].args[0], {}, mod) == "<18BHI" \
+        and T.term(up[0].args[1]) == ("attr", INFO, "data")
+    DATA = T.term(up[0]) if okp else None
+    okc = okl = oki = False
+    if okp:
+        NUM = kw.get("num_cores")
+        states = ("listcomp", ("call", ("attr", ("global", "consts"),
+                                        "AppState"),
+                               (("elem", ("item", DATA, ("slice", ("const",
+                                                                   None),
+                                                         ("const", 18),
+                                                         ("const", None)))),),
+                               ()),
+                  ((("item", DATA, ("slice", ("const", None), ("const", 18),
+                                    ("const", None))), ()),))
+        cs = plain(kw.get("core_states", ("?",)))
+        okc = cs == ("item", plain(states), ("slice", ("const", None),
+                                              plain(NUM), ("const", None)))
+        le_ = kw.get("local_ethernet_chip", ("?",))
+        if le_[0] == "tuple" and len(le_) == 3:
+            src = unparse(reify(plain(("comp", DATA, 18))))
+            okl = [bits(e) for e in le_[1:]] == [(src, 8, 8, 0),
+                                                 (src, 0, 8, 0)]
+        ip = plain(kw.get("ip_address", ("?",)))
+        m = match(("call", ("attr", ("const", "."), "join"),
+                   (("genexp", ("call", ("global", "str"), (V("b"),), ()),
+                     ((V("it"), ()),)),), ()), ip)
+        if m is not None:
+            try:
+                shifts = list(folder.eval(reify(m["it"]), {}, mod))
+            except Exception:
+                shifts = None
+            src = unparse(reify(plain(("comp", DATA, 19))))
+            oki = shifts == [0, 8, 16, 24] and all(
+                bits(_subst(m["b"], T._elem(m["it"]), ("const", s_))) ==
+                (src, s_, 8, 0) for s_ in shifts)
     rep.check(okp and okc and okl and oki, "C14-R1", inst,
               "payload '<18BHI': 18 core states, local Ethernet chip as "
               "(high byte, low byte) = (x, y), IP address low byte first",
-              construct="chip info payload", node=fn)
-    r = returns_of(fn)
-    okr = False
-    if len(r) == 1 and isinstance(r[0].value, ast.Call):
-        kw = {k.arg: unparse(k.value) for k in r[0].value.keywords}
-        okr = kw == {
-            "num_cores": "num_cores",
-            "core_states": "core_states[:num_cores]",
-            "working_links": "working_links",
-            "largest_free_sdram_block": "info.arg2",
-            "largest_free_sram_block": "info.arg3",
-            "largest_free_rtr_mc_block": "largest_free_rtr_mc_block",
-            "ethernet_up": "ethernet_up", "ip_address": "ip_address",
-            "local_ethernet_chip": "local_ethernet_chip"}
+              construct="chip info payload%s%s%s" % (
+                  "" if okc else " (core states)",
+                  "" if okl else " (ethernet chip)",
+                  "" if oki else " (ip)"), node=fn)
+    okr = kw.get("largest_free_sdram_block") == ("attr", INFO, "arg2") and \
+        kw.get("largest_free_sram_block") == ("attr", INFO, "arg3") and \
+        set(kw) == {"num_cores", "core_states", "working_links",
+                    "largest_free_sdram_block", "largest_free_sram_block",
+                    "largest_free_rtr_mc_block", "ethernet_up", "ip_address",
+                    "local_ethernet_chip"}
     rep.check(okr, "C14-R1", inst, "ChipInfo fields receive their namesake "
               "values; core states truncated to the core count; free SDRAM "
               "/ SRAM = arg2 / arg3", construct="ChipInfo construction",
               node=fn)
-    s = calls_in(fn, "_send_scp")
-    ps = formals(fn)
-    oks = len(s) == 1 and [unparse(a) for a in s[0].args[:4]] == [
-        ps[1], ps[2], "0", "SCPCommands.info"]
+    n_ = T.cfg.node_containing(sends[0])
+    a_ = [T.term(x, n_) for x in sends[0].args[:4]]
+    oks = a_[:3] == [("param", ps[1]), ("param", ps[2]), ("const", 0)] and \
+        len(a_) == 4 and a_[3] == ("attr", ("global", "SCPCommands"), "info")
     rep.check(oks, "C14-R1", inst, "the information command goes to core 0 "
               "of the chip asked about", construct="info target", node=fn)
     rep.floor("C14-R1", 6)
 
 
+def _wp(e):
+    for n in ast.walk(e):
+        for c in ast.iter_child_nodes(n):
+            c._parent = n
+    ast.fix_missing_locations(e)
+    return e
+
+
+def _size(t):
+    return sum(1 for _ in subterms(t))
+
+
 def r2_p2p(program, folder, rep):
     fn = program.get(CTRL + ".get_p2p_routing_table")
     inst = qual(fn)
-    fl = Flow(fn, consts=None)
     mod = fn._module
     cf = _const_of(folder, mod)
+    T = Terms(fn)
+    from ..constfold import consts_for
+    fl2 = Flow(fn, consts=consts_for(folder, fn))
+    rd = [c for c in calls_in(fn, "read") if chain(c.func.value) == "self"]
+    if len(rd) != 1:
+        raise AnalysisError("get_p2p_routing_table: one column read")
+    n = T.cfg.node_containing(rd[0])
+    from ..util import bind
+    B = {k: T.term(v, n) for k, v in bind(
+        rd[0], program.get(CTRL + ".read")).items()}
+    dims_calls = [c for c in calls_in(fn, "read_struct_field")]
+    DIMS = None
+    for c in dims_calls:
+        t = T.term(c)
+        if ("const", "p2p_dims") in t[2]:
+            DIMS = t
+    if DIMS is None:
+        raise AnalysisError("get_p2p_routing_table: p2p_dims")
+    dsrc = unparse(reify(plain(DIMS)))
+
+    def field(t):
+        lay = provenance(reify(plain(t)), cf)
+        if len(lay.pieces) == 1 and not lay.const and \
+                lay.pieces[0].src == dsrc and lay.pieces[0].dst_lo == 0:
+            return lay.pieces[0].src_lo, lay.pieces[0].n
+        return None
+    # the column loop: col ranges over the table's width
+    COL = None
+    for st_ in subterms(B.get("address", ("?",))):
+        if st_[0] == "elem" and st_[1][0] == "call" and \
+                st_[1][1] == ("global", "range") and len(st_[1][2]) == 1:
+            COL = st_
     dims = {}
-    for d in fl.defs:
-        if d.var in ("width", "height") and d.mode == "assign":
-            lay = provenance(d.value, cf)
-            if len(lay.pieces) == 1:
-                p = lay.pieces[0]
-                dims[d.var] = (p.src, p.src_lo, p.n)
-    rep.check(dims == {"width": ("p2p_dims", 8, 8),
-                       "height": ("p2p_dims", 0, 8)}, "C14-R2", inst,
+    if COL is not None:
+        dims["width"] = field(COL[1][2][0])
+    hs = sorted((x for x in subterms(B.get("length_bytes", ("?",)))
+                 if field(x) == (0, 8)), key=_size, reverse=True)
+    HEIGHT = hs[0] if hs else None
+    dims["height"] = field(HEIGHT) if HEIGHT else None
+    rep.check(dims == {"width": (8, 8), "height": (0, 8)}, "C14-R2", inst,
               "width = p2p_dims[15:8], height = p2p_dims[7:0]",
               construct="p2p dims %s" % sorted(dims.items()), node=fn)
-    cw = [d for d in fl.defs if d.var == "col_words"]
-    H = Poly.atom("height")
     okw = False
-    if len(cw) == 1:
-        h = fl.symvar("height", cw[0].node)
-        okw = fl.sym(cw[0].value, cw[0].node) == fl.fdiv(
-            h + 7, Poly.const(8)) * 4
+    if HEIGHT is not None:
+        h = fl2.sym(_wp(reify(plain(HEIGHT))), fl2.cfg.entry)
+        okw = fl2.sym(_wp(reify(plain(B["length_bytes"]))),
+                      fl2.cfg.entry) == fl2.fdiv(h + 7, Poly.const(8)) * 4
     rep.check(okw, "C14-R2", inst, "bytes per column = ceil(height / 8) "
               "words", construct="col_words", node=fn)
-    rd = [c for c in calls_in(fn, "read")]
     oka = False
-    if len(rd) == 1:
-        n = fl.cfg.node_containing(rd[0])
-        from ..constfold import consts_for
-        fl2 = Flow(fn, consts=consts_for(folder, fn))
-        n2 = fl2.cfg.node_containing(rd[0])
-        a = fl2.sym(rd[0].args[0], n2)
+    if COL is not None:
         base = folder.name(CONSTS, "SPINNAKER_RTR_P2P")
-        col = fl2.symvar("col", n2)
-        oka = a == col * 128 + base and chain(rd[0].args[1]) == "col_words" \
-            and [chain(x) for x in rd[0].args[2:4]] == formals(fn)[1:3]
+        a_ = fl2.sym(_wp(reify(plain(B["address"]))), fl2.cfg.entry)
+        col = fl2.sym(_wp(reify(plain(COL))), fl2.cfg.entry)
+        ps = formals(fn)
+        oka = a_ == col * 128 + base and \
+            B.get("x") == ("param", ps[1]) and B.get("y") == ("param", ps[2])
     rep.check(oka, "C14-R2", inst, "column c is read from P2P base + 128 * "
               "c (256 entries x 3 bits packed 8 per word)",
               construct="column address", node=fn)
-    # word stream: head 4 bytes decoded, buffer advances by 4
+    rep.guard("C14-R2", _p2p_stream, program, folder, rep, fn)
+    p2p = folder.name(CONSTS, "P2PTableEntry")
+    rep.check(sorted(m.value for m in p2p) == list(range(8)), "C14-R2",
+              CONSTS + ":P2PTableEntry", "every 3-bit value is a member of "
+              "P2PTableEntry (the constructor cannot fail)",
+              construct="P2PTableEntry values")
+    rep.guard("C14-R2", _system_probe, program, folder, rep)
+    rep.floor("C14-R2", 6)
+
+
+def _system_probe(program, folder, rep):
+    # get_system_info: probes exactly the chips with a route
+    gi = program.get(CTRL + ".get_system_info")
+    G = Terms(gi)
+    tc = calls_in(gi, "get_p2p_routing_table")
+    if len(tc) != 1:
+        raise AnalysisError("get_system_info: P2P table")
+    TABLES = G.term(tc[0])
+    E = ("elem", ("items", TABLES))
+    CX, CY = ("comp", ("comp", E, 0), 0), ("comp", ("comp", E, 0), 1)
+    NONE = ("attr", ("attr", ("global", "consts"), "P2PTableEntry"), "none")
+    routed = (mk_cmp("Eq", ("comp", E, 1), NONE), False)
+    okg = False
+    for n_, st, base, key, val in stores(G):
+        if not (val[0] == "callv" and val[1][0] == "attr" and
+                val[1][2] == "get_chip_info"):
+            continue
+        okg = val[2] == (CX, CY) and key in (("tuple", CX, CY),
+                                              ("comp", E, 0))
+        facts = G.all_facts(n_)
+        filt = routed in facts
+        lp = st._parent
+        while lp is not None and not isinstance(lp, ast.For):
+            lp = lp._parent
+        if lp is not None and not filt:
+            built = G.filtered(G.term(lp.iter, G.cfg.loop_head[id(lp)]))
+            filt = bool(built) and len(built) == 1 and \
+                built[0][0] == ("items", TABLES) and \
+                routed in [(c, p) for c, p in built[0][2]]
+        # an unresponsive chip is skipped: the probe is inside try/except
+        tr = st._parent
+        while tr is not None and not isinstance(tr, ast.Try):
+            tr = tr._parent
+        okg = okg and filt and tr is not None and any(
+            h.type is not None and unparse(h.type) == "SCPError"
+            for h in tr.handlers)
+        # size = largest routed coordinate + 1
+        si = plain(base)
+        oks = False
+        if si[0] == "call" and si[1] == ("global", "SystemInfo") and \
+                len(si[2]) == 2:
+            oks = True
+            for dim, c_ in zip(si[2], (CX, CY)):
+                m = None
+                for pat in (("binop", "Add", V("m"), ("const", 1)),
+                            ("binop", "Add", ("const", 1), V("m"))):
+                    m = m or match(pat, dim)
+                want = ("call", ("global", "max"),
+                        (("genexp", plain(c_),
+                          ((plain(("items", TABLES)),
+                            (("not", routed[0]),)),)),), ())
+                oks = oks and m is not None and m["m"] == plain(want)
+        okg = okg and oks
+    rep.check(okg, "C14-R2", qual(gi), "every chip with a P2P route is "
+              "probed under its own coordinates; unresponsive chips are "
+              "skipped; size = largest routed coordinate + 1",
+              construct="system probe", node=gi)
+
+
+def _p2p_stream(program, folder, rep, fn):
+    """The word-by-word form of the column decode (a buffer that is peeled
+    four bytes at a time).  Other forms (e.g. unpacking the whole column and
+    indexing it) are not judged by this rule."""
+    inst = qual(fn)
+    mod = fn._module
+    fl = Flow(fn, consts=None)
     wl = [n for n in ast.walk(fn) if isinstance(n, ast.While)]
+    if len(wl) != 1:
+        raise AnalysisError("the column is not decoded by a word-peeling "
+                            "while loop")
+    w = wl[0]
+    heads = tails = None
+    for s_ in ast.walk(w):
+        if isinstance(s_, ast.Subscript) and isinstance(s_.slice, ast.Slice):
+            lo = unparse(s_.slice.lower) if s_.slice.lower else ""
+            hi = unparse(s_.slice.upper) if s_.slice.upper else ""
+            if (lo, hi) == ("", "4"):
+                heads = s_
+            if (lo, hi) == ("4", ""):
+                tails = s_
+    ups = [c for c in calls_in(w, ("unpack", "unpack_from"))]
+    fors = [n for n in ast.walk(w) if isinstance(n, ast.For)]
+    if not (isinstance(w.test, ast.Compare) and len(w.test.ops) == 1 and
+            isinstance(w.test.ops[0], (ast.Lt, ast.Gt)) and len(fors) == 1
+            and len(ups) == 1):
+        raise AnalysisError("the column is not decoded by a word-peeling "
+                            "while loop")
     oks = False
-    okm = False
-    if len(wl) == 1:
-        w = wl[0]
-        heads = tails = None
-        bufv = None
-        for s_ in ast.walk(w):
-            if isinstance(s_, ast.Subscript) and isinstance(s_.slice,
-                                                            ast.Slice):
-                lo = unparse(s_.slice.lower) if s_.slice.lower else ""
-                hi = unparse(s_.slice.upper) if s_.slice.upper else ""
-                if (lo, hi) == ("", "4"):
-                    heads = s_
-                if (lo, hi) == ("4", ""):
-                    tails = s_
-        ups = [c for c in calls_in(w, ("unpack", "unpack_from"))]
-        if heads is not None and tails is not None and len(ups) == 1:
-            bufv = chain(tails.value)
-            # the tail is assigned back to the buffer; the word decoded is
-            # the head
-            back = any(d.var == bufv and _inside(d.node.ast, w) and
-                       d.mode in ("assign", "unpack") for d in fl.defs)
-            src = chain(ups[0].args[1])
-            hd = [d for d in fl.defs if d.var == src and
-                  _inside(d.node.ast, w)]
-            oks = back and chain(heads.value) == bufv and len(hd) == 1 and \
-                folder.eval(ups[0].args[0], {}, mod) == "<I" and \
-                call_name(ups[0])[0] == "unpack"
-        okm = unparse(w.test) == "row < height"
-        fors = [n for n in ast.walk(w) if isinstance(n, ast.For)]
-        if len(fors) == 1:
-            okm = okm and unparse(fors[0].iter) == \
-                "range(min(8, height - row))"
-            ev = chain(fors[0].target)
-            st = [s_ for s_ in ast.walk(fors[0]) if isinstance(s_, ast.Assign)
-                  and isinstance(s_.targets[0], ast.Subscript)]
-            inc = [s_ for s_ in ast.walk(fors[0])
-                   if isinstance(s_, ast.AugAssign)]
-            okm = okm and len(st) == 1 and len(inc) == 1 and \
-                unparse(st[0].targets[0]) == "table[col, row]" and \
-                unparse(inc[0]) == "row += 1"
-            if okm:
-                v = st[0].value
-                okm = isinstance(v, ast.Call) and \
-                    unparse(v.func) == "consts.P2PTableEntry"
-                if okm:
-                    for k in range(8):
-                        lay = provenance(v.args[0], _const_of(
-                            folder, mod, {ev: k}))
-                        okm = okm and len(lay.pieces) == 1 and (
-                            lay.pieces[0].src_lo, lay.pieces[0].n) == (
-                            3 * k, 3)
-        else:
-            okm = False
+    if heads is not None and tails is not None:
+        bufv = chain(tails.value)
+        back = any(d.var == bufv and _inside(d.node.ast, w) and
+                   d.mode in ("assign", "unpack") for d in fl.defs)
+        src = chain(ups[0].args[1])
+        hd = [d for d in fl.defs if d.var == src and _inside(d.node.ast, w)]
+        oks = back and chain(heads.value) == bufv and len(hd) == 1 and \
+            folder.eval(ups[0].args[0], {}, mod) == "<I" and \
+            call_name(ups[0])[0] == "unpack"
+    lt = isinstance(w.test.ops[0], ast.Lt)
+    row = chain(w.test.left if lt else w.test.comparators[0])
+    hexp = unparse(w.test.comparators[0] if lt else w.test.left)
+    okm = row is not None
+    f = fors[0]
+    okm = okm and unparse(f.iter) in (
+        "range(min(8, %s - %s))" % (hexp, row),
+        "range(min(%s - %s, 8))" % (hexp, row))
+    ev = chain(f.target)
+    st = [s_ for s_ in ast.walk(f) if isinstance(s_, ast.Assign)
+          and isinstance(s_.targets[0], ast.Subscript)]
+    incs = [d for d in fl.defs if d.var == row and _inside(d.node.ast, f)]
+    okm = okm and len(st) == 1 and len(incs) == 1
+    if okm:
+        d = incs[0]
+        okm = fl.sym_after(ast.Name(id=row, ctx=ast.Load()), d.node) == \
+            fl.sym(ast.Name(id=row, ctx=ast.Load()), d.node) + 1
+        key = st[0].targets[0].slice
+        okm = okm and isinstance(key, ast.Tuple) and len(key.elts) == 2 and \
+            chain(key.elts[1]) == row
+        v = st[0].value
+        okm = okm and isinstance(v, ast.Call) and \
+            unparse(v.func).endswith("P2PTableEntry")
+        if okm:
+            for k in range(8):
+                lay = provenance(v.args[0], _const_of(folder, mod, {ev: k}))
+                okm = okm and len(lay.pieces) == 1 and (
+                    lay.pieces[0].src_lo, lay.pieces[0].n) == (3 * k, 3)
     rep.check(oks, "C14-R2", inst, "each 32-bit word is decoded from the "
               "next four bytes of the column: the buffer advances by 4 per "
               "word", construct="word stream", node=fn,
@@ -279,29 +434,6 @@ def r2_p2p(program, folder, rep):
     rep.check(okm, "C14-R2", inst, "entry k of a word is bits 3k+2:3k; at "
               "most min(8, height - row) entries per word; rows advance by "
               "one", construct="entry extraction", node=fn)
-    p2p = folder.name(CONSTS, "P2PTableEntry")
-    rep.check(sorted(m.value for m in p2p) == list(range(8)), "C14-R2",
-              CONSTS + ":P2PTableEntry", "every 3-bit value is a member of "
-              "P2PTableEntry (the constructor cannot fail)",
-              construct="P2PTableEntry values")
-    # get_system_info: probes exactly the chips with a route
-    gi = program.get(CTRL + ".get_system_info")
-    gfl = Flow(gi)
-    t = unparse(gi)
-    okg = "if p2p_route != consts.P2PTableEntry.none" in t and \
-        "sys_info[x, y] = self.get_chip_info(x, y)" in t and \
-        "SystemInfo(max_x + 1, max_y + 1)" in t and \
-        "except SCPError" in t
-    mx = [d for d in gfl.defs if d.var in ("max_x", "max_y")]
-    okg = okg and len(mx) == 2 and all(
-        "r != consts.P2PTableEntry.none" in unparse(d.value) for d in mx) \
-        and unparse(mx[0].value).startswith("max((x_ for (x_, y_), r") and \
-        unparse(mx[1].value).startswith("max((y_ for (x_, y_), r")
-    rep.check(okg, "C14-R2", qual(gi), "every chip with a P2P route is "
-              "probed under its own coordinates; unresponsive chips are "
-              "skipped; size = largest routed coordinate + 1",
-              construct="system probe", node=gi)
-    rep.floor("C14-R2", 6)
 
 
 def _inside(node, anc):
